@@ -1376,11 +1376,12 @@ func (target *BuildTarget) provideFor(other *BuildTarget) ([]BuildLabel, bool) {
 // they are allowed to have optional prefixes before a colon which aren't taken
 // into account for the resulting hash.
 func (target *BuildTarget) UnprefixedHashes() []string {
-	hashes := target.Hashes[:]
-	for i, h := range hashes {
+	hashes := make([]string, len(target.Hashes))
+	for i, h := range target.Hashes {
 		if index := strings.LastIndexByte(h, ':'); index != -1 {
-			hashes[i] = strings.TrimSpace(h[index+1:])
+			h = strings.TrimSpace(h[index+1:])
 		}
+		hashes[i] = h
 	}
 	return hashes
 }
